@@ -80,7 +80,7 @@ func TestVerifC07(t *testing.T) {
 		return vkNewServer(t, cluster, vols, false)
 	}
 
-	run.Cases("keepstore", run.N(1600, 16000), func(i int, rng *verifkit.Rand) {
+	run.Cases("keepstore", run.N(1200, 12000), func(i int, rng *verifkit.Rand) {
 		now := time.Now().Unix()
 		var c c07KSCase
 		c.C07Case = verifkit.C07GenCase(rng, now)
@@ -150,7 +150,7 @@ func TestVerifC07(t *testing.T) {
 			want := data[strings.SplitN(p.Loc, "+", 2)[0]]
 			if e.MustVerify {
 				if r.Status != 200 || !bytes.Equal(r.Body, want) {
-					run.Violation("C07:keepstore:valid-locator-refused:"+p.Kind+c07R(c.RHint), detail(), in)
+					run.Violation("C07:keepstore:valid-locator-refused:"+p.Kind+c07R(strings.Contains(p.Loc, "+R")), detail(), in)
 				}
 				return
 			}
@@ -161,7 +161,7 @@ func TestVerifC07(t *testing.T) {
 				}
 			}
 			if r.Status/100 == 2 || leaked {
-				run.Violation("C07:keepstore:data-served-without-valid-signature:"+p.Kind+":"+e.Class+c07R(c.RHint), detail(), in)
+				run.Violation("C07:keepstore:data-served-without-valid-signature:"+p.Kind+":"+e.Class+c07R(strings.Contains(p.Loc, "+R")), detail(), in)
 				return
 			}
 			if !c07Routeable.MatchString(p.Loc) || (strings.Contains(p.Loc, "+R") && !strings.Contains(p.Loc, "+A")) {
